@@ -28,7 +28,7 @@ PROPS['C02'] = dict(
     domain=['table + special tokens fit u32', 'wf(): no special spelling is also a regular token (configuration precondition)'],
     bounded_probe=dict(label='merge_bytes(via tokenize/de_tokenize)', file='src/tokenization.rs', line=1368,
                        what='the assumed contract of merge_bytes through the public API: every emitted id is a vocabulary id, and decoding the ids (special tokens ignored on both sides) returns the text without its trailing whitespace, as well-formed UTF-8',
-                       bound='7 merge tables (multi-level, overlapping, whitespace-prefixed, multi-byte merges) x {no limit, truncating max_vocab_size} x {no prefix/suffix, <bos>/<eos>} x texts of at most 5 pieces from {a, b, c, space, U+00E4, newline} and of at most 3 pieces from {<unk>, <pad>, <bos>, space, ab} (all without prefix/suffix, every 4th with)'),
+                       bound='7 merge tables (multi-level, overlapping, whitespace-prefixed, multi-byte merges) x {no limit, truncating max_vocab_size} x {no prefix/suffix, <bos>/<eos>} x texts of at most 5 pieces from {a, b, c, space, U+00E4, newline} and of at most 3 pieces from {<unk>, <pad>, <bos>, space, ab} and of at most 3 pieces from {U+0000, U+007F, U+0080, U+07FF, U+FFFF, U+10FFFF, a, space} (all without prefix/suffix, every 4th with)'),
 )
 
 PROPS['C04'] = dict(
@@ -86,7 +86,7 @@ PROPS['C14'] = dict(
     input_search=True,
     bounded_probe=dict(label='corrupt_whitespace(string-level)', file='src/data/preprocessing.rs', line=329,
                        what='the whole statement at STRING level in both modes through the public preprocessing() API (same non-whitespace characters, clean, operations/repair recover the text with one label per character, target untouched, deterministic, zero probabilities never fire); this is the only check of the grapheme-mode string-level clause',
-                       bound='every whitespace-clean text of at most 4 code points over {a, b, space, CR, LF, U+0001, U+0301, U+200D, U+0600, U+1F1E9, U+1100, U+1161, U+1F600} x use_graphemes in {true,false} x (iw,dw) in {(1,0),(0,1),(0.5,0.5)} x seeds 0..2; plus train_task(WhitespaceCorrection) on 5 texts with literal special-token spellings: one label per token'),
+                       bound='every whitespace-clean text of at most 4 code points over {a, b, space, CR, LF, U+0001, U+0301, U+200D, U+0600, U+1F1E9, U+1100, U+1161, U+1F600} x use_graphemes in {true,false} x (iw,dw) in {(1,0),(0,1),(0.5,0.5)} x seeds 0..2 (each also with file_idx 1 and 3 and a non-empty marks map, which must not matter); plus train_task(WhitespaceCorrection) on 5 texts with literal special-token spellings: one label per token'),
 )
 
 PROPS['C18'] = dict(
@@ -204,7 +204,7 @@ PROPS['C01'] = dict(
     input_search=True,
     bounded_probe=dict(label='tokenize/de_tokenize(public-API)', file='src/tokenization.rs', line=626,
                        what='the whole statement through the public constructors and Tokenize API, i.e. INCLUDING the parts no contract reaches: the special-token regex built in new_base_tokenizer (regex::escape, Regex are external), split_input, VocabTokenizer::de_tokenize of the character tokenizer; byte tokenizer: ids == prefix + UTF-8 bytes (special tokens as single ids) + suffix and decoding returns the text; character tokenizer: one id per character, unknown id outside the alphabet, round trip over the alphabet',
-                       bound='every text of at most 3 pieces from {a, Z, space, U+00E4, e+U+0301, CRLF, woman-ZWJ-woman, <bos>, <|sep|>, [SEP], <, |, sep} x byte tokenizer configs (graphemes, code-point groups, pad_to_multiple_of 8, two-token prefix and suffix, special tokens with regex metacharacters) x ignore_special_tokens x character tokenizer configs'),
+                       bound='every text of at most 3 pieces from {a, Z, space, U+00E4, e+U+0301, CRLF, woman-ZWJ-woman, <bos>, <|sep|>, [SEP], <, |, sep, <unk>, U+0000, U+10FFFF} x byte tokenizer configs (graphemes, code-point groups, pad_to_multiple_of 8, two-token prefix and suffix, special tokens with regex metacharacters) x ignore_special_tokens x character tokenizer configs'),
 )
 
 PROPS['C17'] = dict(
